@@ -300,7 +300,18 @@ def signedoff(ctx):
     _expect(ctx, "R33.signed-offset", c, ["signed_off_bad"], ["signed_off_good"])
 
 
-ALL = {"signedoff": signedoff, "reqalloc": reqalloc, "fieldfit": fieldfit, "stalefield": stalefield, "hidden": hidden, "region_args": region_args, "widen": widen, "progress": progress, "lazyinit": lazyinit, "lanes": lanes, "atomic": atomic, "feasible": feasible, "endian": endian, "units": units, "alloc": alloc, "status": status, "ownership": ownership, "cursor": cursor, "arrays": arrays,
+def xxh(ctx):
+    from .rules import xxh as xx
+    P = program()
+    c = _sub()
+    lengths = [0, 3, 4, 7, 8, 13, 31, 32, 45, 64]
+    vg = xx.check(c, P.fn("xxh_formula_good", "src/controls.c"), lengths)
+    vb = xx.check(c, P.fn("xxh_formula_bad", "src/controls.c"), lengths)
+    ctx.control("R5.spec xxh64-formula accepts the rearranged XXH64 and finds an input for the wrong rotation",
+                vg == "same" and vb == "witness", "good=%s bad=%s" % (vg, vb))
+
+
+ALL = {"xxh": xxh, "signedoff": signedoff, "reqalloc": reqalloc, "fieldfit": fieldfit, "stalefield": stalefield, "hidden": hidden, "region_args": region_args, "widen": widen, "progress": progress, "lazyinit": lazyinit, "lanes": lanes, "atomic": atomic, "feasible": feasible, "endian": endian, "units": units, "alloc": alloc, "status": status, "ownership": ownership, "cursor": cursor, "arrays": arrays,
        "recursion": recursion, "narrowing": narrowing, "skeleton": skeleton, "must_pass": must_pass}
 
 
